@@ -63,6 +63,7 @@ struct Runner : Hooks {
     int parent_ofd[3] = { -1, -1, -1 };
     std::map<int, int> start_user_ofd;  // stream -> expected ofd id (HANDLE/FILE)
     int path_vnode[3] = { -1, -1, -1 };
+    int src_low[3] = { -1, -1, -1 };   // stream -> caller descriptor 0-2 supplied as handle/FILE
     std::vector<int> poll_truth;        // per source ground-truth ready bits at the underlying poll's return
     bool poll_returned = false;
     int polls = 0;
